@@ -57,21 +57,30 @@ Definition shr_byte_check (r a p : N) : bool :=
   (shr_byte r a p <? 256) &&
   (shr_byte r a p * 2 ^ r + a mod 2 ^ r =? (p mod 2 ^ r) * 256 + a).
 
-Lemma shl_byte_sweep :
-  forallb (fun r => forallb (fun a => forallb (fun h => shl_byte_check r a h) (below 256)) (below 256)) (below 8) = true.
-Proof. vm_compute. reflexivity. Qed.
+(** the lists are bound once so that [vm_compute] builds them once *)
+Definition sweep3 (f : N -> N -> N -> bool) : bool :=
+  let l8 := below 8 in let l256 := below 256 in
+  forallb (fun r => forallb (fun a => forallb (fun h => f r a h) l256) l256) l8.
 
-Lemma shr_byte_sweep :
-  forallb (fun r => forallb (fun a => forallb (fun p => shr_byte_check r a p) (below 256)) (below 256)) (below 8) = true.
-Proof. vm_compute. reflexivity. Qed.
+Lemma sweep3_ok f : sweep3 f = true ->
+  forall r a h, r < 8 -> a < 256 -> h < 256 -> f r a h = true.
+Proof.
+  unfold sweep3. cbv zeta. intros H r a h Hr Ha Hh.
+  exact (forall_below 256 _ (forall_below 256 _ (forall_below 8 _ H r Hr) a Ha) h Hh).
+Qed.
+
+Lemma shl_byte_sweep : sweep3 shl_byte_check = true.
+Proof. vm_cast_no_check (eq_refl true). Qed.  (* evaluated once, by the kernel, at Qed *)
+
+Lemma shr_byte_sweep : sweep3 shr_byte_check = true.
+Proof. vm_cast_no_check (eq_refl true). Qed.
 
 (** bound stated: r < 8, both bytes < 256 *)
 Lemma shl_byte_ok r a h : r < 8 -> a < 256 -> h < 256 ->
   shl_byte r a h < 256 /\
   shl_byte r a h + 256 * N.shiftr a (8 - r) = a * 2 ^ r + N.shiftr h (8 - r).
 Proof.
-  intros Hr Ha Hh.
-  pose proof (forall_below 256 _ (forall_below 256 _ (forall_below 8 _ shl_byte_sweep r Hr) a Ha) h Hh) as H.
+  intros Hr Ha Hh. pose proof (sweep3_ok _ shl_byte_sweep r a h Hr Ha Hh) as H.
   unfold shl_byte_check in H. apply andb_true_iff in H. destruct H as [H1 H2].
   apply N.ltb_lt in H1. apply N.eqb_eq in H2. split; assumption.
 Qed.
@@ -80,8 +89,7 @@ Lemma shr_byte_ok r a p : r < 8 -> a < 256 -> p < 256 ->
   shr_byte r a p < 256 /\
   shr_byte r a p * 2 ^ r + a mod 2 ^ r = (p mod 2 ^ r) * 256 + a.
 Proof.
-  intros Hr Ha Hp.
-  pose proof (forall_below 256 _ (forall_below 256 _ (forall_below 8 _ shr_byte_sweep r Hr) a Ha) p Hp) as H.
+  intros Hr Ha Hp. pose proof (sweep3_ok _ shr_byte_sweep r a p Hr Ha Hp) as H.
   unfold shr_byte_check in H. apply andb_true_iff in H. destruct H as [H1 H2].
   apply N.ltb_lt in H1. apply N.eqb_eq in H2. split; assumption.
 Qed.
@@ -336,7 +344,171 @@ Lemma bytes_map2_nth f a b i : length a = length b -> (i < length a)%nat ->
   nth i (bytes_map2 f a b) x00 = n2b (f (b2n (nth i a x00)) (b2n (nth i b x00))).
 Proof.
   intros Hl Ha. unfold bytes_map2.
-  rewrite (nth_indep _ x00 ((fun xy => n2b (f (b2n (fst xy)) (b2n (snd xy)))) (x00, x00)))
-    by (rewrite map_length, combine_length; lia).
+  set (g := fun xy : byte * byte => n2b (f (b2n (fst xy)) (b2n (snd xy)))).
+  rewrite (nth_indep _ x00 (g (x00, x00))) by (rewrite map_length, combine_length; lia).
   rewrite map_nth, combine_nth by exact Hl. reflexivity.
+Qed.
+
+(** * 11. Stack permutations (top of stack = head of the list) *)
+Section StackPerms.
+Local Open Scope nat_scope.
+Context {A : Type}.
+
+Lemma firstn_app_exact (a l : list A) n : length a = n -> firstn n (a ++ l) = a.
+Proof. intros <-. rewrite firstn_app, Nat.sub_diag, firstn_all. cbn [firstn]. apply app_nil_r. Qed.
+
+Lemma skipn_app_exact (a l : list A) n : length a = n -> skipn n (a ++ l) = l.
+Proof. intros <-. rewrite skipn_app, Nat.sub_diag, skipn_all. reflexivity. Qed.
+
+(** cut a prefix of exactly [n] items off a list that is long enough *)
+Lemma cut_prefix n (d : list A) : n <= length d ->
+  exists a rest, d = a ++ rest /\ length a = n /\ a = firstn n d /\ rest = skipn n d.
+Proof.
+  intros H. exists (firstn n d), (skipn n d). split; [symmetry; apply firstn_skipn|].
+  split; [apply firstn_length_le; exact H|]. split; reflexivity.
+Qed.
+End StackPerms.
+
+Local Open Scope nat_scope.
+
+Lemma Some_eq {T} (a b : T) : Some a = Some b -> a = b.
+Proof. intros H. injection H as H. exact H. Qed.
+
+(** OP_DUP / OP_2DUP / OP_3DUP: copy the top [n] items *)
+Theorem dup_n_spec : forall n d r, dup_n n d = Some r ->
+  n <= length d /\ r = firstn n d ++ d /\ length r = n + length d /\ skipn n r = d.
+Proof.
+  intros n d r H. unfold dup_n in H. destruct (Nat.ltb_spec (length d) n) as [Hlt|Hge]; [discriminate|].
+  apply Some_eq in H; subst r. destruct (cut_prefix n d Hge) as (a & rest & Ed & La & Ea & _).
+  rewrite <- Ea. split; [exact Hge|]. split; [reflexivity|]. split.
+  - rewrite app_length. lia.
+  - apply skipn_app_exact. exact La.
+Qed.
+
+Theorem dup_n_none : forall n d, dup_n n d = None <-> length d < n.
+Proof. intros n d. unfold dup_n. destruct (Nat.ltb_spec (length d) n); split; intros; try discriminate; try lia; reflexivity. Qed.
+
+(** OP_SWAP / OP_2SWAP: exchange the two top groups of [n] items *)
+Theorem swap_n_spec : forall n d r, swap_n n d = Some r ->
+  exists a b rest, d = a ++ b ++ rest /\ length a = n /\ length b = n /\
+    r = b ++ a ++ rest /\ length r = length d /\ skipn (2 * n) r = skipn (2 * n) d.
+Proof.
+  intros n d r H. unfold swap_n in H. destruct (Nat.ltb_spec (length d) (2 * n)) as [Hlt|Hge]; [discriminate|].
+  apply Some_eq in H; subst r.
+  destruct (cut_prefix n d ltac:(lia)) as (a & d1 & Ed & La & _ & _). subst d.
+  rewrite app_length in Hge.
+  destruct (cut_prefix n d1 ltac:(lia)) as (b & rest & Ed1 & Lb & _ & _). subst d1.
+  exists a, b, rest.
+  assert (Lab : length (a ++ b) = 2 * n) by (rewrite app_length; lia).
+  rewrite (firstn_app_exact a _ n La), (skipn_app_exact a _ n La), (firstn_app_exact b _ n Lb).
+  rewrite (app_assoc a b rest), (skipn_app_exact (a ++ b) rest (2 * n) Lab), <- (app_assoc a b rest).
+  split; [reflexivity|]. split; [exact La|]. split; [exact Lb|]. split; [reflexivity|]. split.
+  - rewrite !app_length. lia.
+  - rewrite (app_assoc b a rest). apply skipn_app_exact. rewrite app_length. lia.
+Qed.
+
+Theorem swap_n_none : forall n d, swap_n n d = None <-> length d < 2 * n.
+Proof. intros n d. unfold swap_n. destruct (Nat.ltb_spec (length d) (2 * n)); split; intros; try discriminate; try lia; reflexivity. Qed.
+
+(** OP_ROT / OP_2ROT: the third group comes to the top *)
+Theorem rot_n_spec : forall n d r, rot_n n d = Some r ->
+  exists a b c rest, d = a ++ b ++ c ++ rest /\ length a = n /\ length b = n /\ length c = n /\
+    r = c ++ a ++ b ++ rest /\ length r = length d /\ skipn (3 * n) r = skipn (3 * n) d.
+Proof.
+  intros n d r H. unfold rot_n in H. destruct (Nat.ltb_spec (length d) (3 * n)) as [Hlt|Hge]; [discriminate|].
+  apply Some_eq in H; subst r.
+  destruct (cut_prefix n d ltac:(lia)) as (a & d1 & Ed & La & _ & _). subst d.
+  rewrite app_length in Hge.
+  destruct (cut_prefix n d1 ltac:(lia)) as (b & d2 & Ed1 & Lb & _ & _). subst d1.
+  rewrite app_length in Hge.
+  destruct (cut_prefix n d2 ltac:(lia)) as (c & rest & Ed2 & Lc & _ & _). subst d2.
+  exists a, b, c, rest.
+  assert (Lab : length (a ++ b) = 2 * n) by (rewrite app_length; lia).
+  assert (Labc : length (a ++ b ++ c) = 3 * n) by (rewrite !app_length; lia).
+  assert (E2 : a ++ b ++ c ++ rest = (a ++ b) ++ c ++ rest) by (rewrite <- app_assoc; reflexivity).
+  assert (E3 : a ++ b ++ c ++ rest = (a ++ b ++ c) ++ rest) by (rewrite <- !app_assoc; reflexivity).
+  assert (S2 : skipn (2 * n) (a ++ b ++ c ++ rest) = c ++ rest) by (rewrite E2; apply skipn_app_exact; exact Lab).
+  assert (F2 : firstn (2 * n) (a ++ b ++ c ++ rest) = a ++ b) by (rewrite E2; apply firstn_app_exact; exact Lab).
+  assert (S3 : skipn (3 * n) (a ++ b ++ c ++ rest) = rest) by (rewrite E3; apply skipn_app_exact; exact Labc).
+  rewrite S2, F2, S3, (firstn_app_exact c rest n Lc), <- (app_assoc a b rest).
+  split; [reflexivity|]. split; [exact La|]. split; [exact Lb|]. split; [exact Lc|]. split; [reflexivity|]. split.
+  - rewrite !app_length. lia.
+  - replace (c ++ a ++ b ++ rest) with ((c ++ a ++ b) ++ rest) by (rewrite <- !app_assoc; reflexivity).
+    apply skipn_app_exact. rewrite !app_length. lia.
+Qed.
+
+Theorem rot_n_none : forall n d, rot_n n d = None <-> length d < 3 * n.
+Proof. intros n d. unfold rot_n. destruct (Nat.ltb_spec (length d) (3 * n)); split; intros; try discriminate; try lia; reflexivity. Qed.
+
+(** OP_OVER / OP_2OVER: copy the second group to the top *)
+Theorem over_n_spec : forall n d r, over_n n d = Some r ->
+  exists a b rest, d = a ++ b ++ rest /\ length a = n /\ length b = n /\
+    r = b ++ a ++ b ++ rest /\ length r = n + length d /\ skipn n r = d.
+Proof.
+  intros n d r H. unfold over_n in H. destruct (Nat.ltb_spec (length d) (2 * n)) as [Hlt|Hge]; [discriminate|].
+  apply Some_eq in H; subst r.
+  destruct (cut_prefix n d ltac:(lia)) as (a & d1 & Ed & La & _ & _). subst d.
+  rewrite app_length in Hge.
+  destruct (cut_prefix n d1 ltac:(lia)) as (b & rest & Ed1 & Lb & _ & _). subst d1.
+  exists a, b, rest.
+  rewrite (skipn_app_exact a _ n La), (firstn_app_exact b _ n Lb).
+  split; [reflexivity|]. split; [exact La|]. split; [exact Lb|]. split; [reflexivity|]. split.
+  - rewrite !app_length. lia.
+  - apply skipn_app_exact. exact Lb.
+Qed.
+
+Theorem over_n_none : forall n d, over_n n d = None <-> length d < 2 * n.
+Proof. intros n d. unfold over_n. destruct (Nat.ltb_spec (length d) (2 * n)); split; intros; try discriminate; try lia; reflexivity. Qed.
+
+(** OP_PICK: copy item [i] (0 = top) to the top *)
+Lemma pick_roll_guard (i : Z) (d : list bytes) :
+  ((i <? 0) || (lenZ d <=? i))%Z = false <-> (0 <= i < lenZ d)%Z.
+Proof. rewrite orb_false_iff, Z.ltb_ge, Z.leb_gt. reflexivity. Qed.
+
+Theorem pick_n_spec : forall i d r, pick_n i d = Some r ->
+  (0 <= i < lenZ d)%Z /\
+  exists x, nth_error d (Z.to_nat i) = Some x /\ r = x :: d /\ length r = S (length d) /\ skipn 1 r = d.
+Proof.
+  intros i d r H. unfold pick_n in H.
+  destruct ((i <? 0) || (lenZ d <=? i))%Z eqn:G; [discriminate|]. apply pick_roll_guard in G.
+  split; [exact G|]. destruct (nth_error d (Z.to_nat i)) as [x|] eqn:E; [|discriminate].
+  apply Some_eq in H; subst r. exists x. repeat split.
+Qed.
+
+Theorem pick_n_none : forall i d, pick_n i d = None <-> (i < 0 \/ lenZ d <= i)%Z.
+Proof.
+  intros i d. unfold pick_n. destruct ((i <? 0) || (lenZ d <=? i))%Z eqn:G.
+  - apply orb_true_iff in G. rewrite Z.ltb_lt, Z.leb_le in G. split; [intros _; exact G|reflexivity].
+  - apply pick_roll_guard in G. destruct (nth_error d (Z.to_nat i)) eqn:E.
+    + split; [discriminate|lia].
+    + apply nth_error_None in E. unfold lenZ in G. lia.
+Qed.
+
+(** OP_ROLL: move item [i] to the top *)
+Theorem roll_n_spec : forall i d r, roll_n i d = Some r ->
+  (0 <= i < lenZ d)%Z /\
+  exists a x rest, d = a ++ x :: rest /\ length a = Z.to_nat i /\ r = x :: a ++ rest /\
+    length r = length d /\ skipn (S (Z.to_nat i)) r = skipn (S (Z.to_nat i)) d.
+Proof.
+  intros i d r H. unfold roll_n in H.
+  destruct ((i <? 0) || (lenZ d <=? i))%Z eqn:G; [discriminate|]. apply pick_roll_guard in G.
+  split; [exact G|]. destruct (nth_error d (Z.to_nat i)) as [x|] eqn:E; [|discriminate].
+  apply Some_eq in H; subst r. destruct (nth_error_split d (Z.to_nat i) E) as (a & rest & -> & La).
+  exists a, x, rest.
+  assert (La1 : length (a ++ [x]) = S (Z.to_nat i)) by (rewrite app_length; cbn [length]; lia).
+  assert (E1 : a ++ x :: rest = (a ++ [x]) ++ rest) by (rewrite <- app_assoc; reflexivity).
+  assert (S1 : skipn (S (Z.to_nat i)) (a ++ x :: rest) = rest) by (rewrite E1; apply skipn_app_exact; exact La1).
+  rewrite (firstn_app_exact a _ _ La), S1.
+  split; [reflexivity|]. split; [exact La|]. split; [reflexivity|]. split.
+  - cbn [length]. rewrite !app_length. cbn [length]. lia.
+  - change (x :: a ++ rest) with ((x :: a) ++ rest). apply skipn_app_exact. cbn [length]. lia.
+Qed.
+
+Theorem roll_n_none : forall i d, roll_n i d = None <-> (i < 0 \/ lenZ d <= i)%Z.
+Proof.
+  intros i d. unfold roll_n. destruct ((i <? 0) || (lenZ d <=? i))%Z eqn:G.
+  - apply orb_true_iff in G. rewrite Z.ltb_lt, Z.leb_le in G. split; [intros _; exact G|reflexivity].
+  - apply pick_roll_guard in G. destruct (nth_error d (Z.to_nat i)) eqn:E.
+    + split; [discriminate|lia].
+    + apply nth_error_None in E. unfold lenZ in G. lia.
 Qed.
